@@ -125,6 +125,11 @@ def clause_b(repo, chk):
             raise AnalysisError("Variable.__call__ not interpretable (%s): %s" % (attrs.get("_label"), e))
 
     def require(label, got, want, construct):
+        import numpy as _np
+        if isinstance(got, _np.ndarray) and got.size == 1:
+            got = got.reshape(-1)[0]  # a one-component variable evaluated element-wise
+        elif isinstance(got, (list, tuple)) and len(got) == 1:
+            got = got[0]
         ok, detail = equal(sp.sympify(got), sp.sympify(want))
         if ok is None:
             raise AnalysisError("B-polar normaliser too weak at %s: %s" % (label, detail))
